@@ -318,6 +318,27 @@ def r2_codec_plumb(ck, F):
 
 
 # ---------------------------------------------------------------------------------------
+def stale_count_writes(b, count_sites, use, is_sink):
+    """sink writes W (calls handed `&mut` the sink) that can run after the latest of the given count() reads and
+    before `use`: W is reachable from one of the reads and reaches `use` without passing another read.  Every call
+    ends its own basic block, so this is block reachability with the reads' blocks removed."""
+    A_ = {s.bb for s in count_sites}
+    back = b.reaches(use.bb, stop=A_) - A_
+    fwd = set()
+    for s in count_sites:
+        fwd |= b.reachable_from(s.bb)
+    out = []
+    for s, c, t in b.calls():
+        if s.bb not in back or s.bb not in fwd or (s.bb == use.bb and use.bb not in back):
+            continue
+        for op, e in zip(t["args"], b.arg_exprs(s)):
+            ty = op["pl"]["ty"] if op["k"] in ("copy", "move") else ""
+            if ty.startswith("&mut") and is_sink(e):
+                out.append(s)
+                break
+    return out
+
+
 def dispatch_table(body, argname):
     """switch on discriminant of parameter `argname`: {variant: [callee names in that arm]}"""
     for bb in sorted(body.normal_blocks()):
@@ -505,14 +526,15 @@ def r4_index_pair(ck, F, R="C01-R4"):
             # offset: to_be_bytes(count(self.writer)) taken before the block write, no sink write in between
             val = strip_casts(ia[2])
             okv = is_call(val, "::to_be_bytes")
-            cnt = val.strip().a[0].strip() if okv else None
-            okc = cnt is not None and cnt.k == "call" and cnt.x["path"].endswith(A("count_count")) and is_self_field(cnt.a[0], "writer")
+            # the offset may be carried from block to block (`offset = count()` refreshed after every write): every
+            # value it can hold is a count() of the sink, told apart by the site that reads it
+            cnts = [c_.strip() for c_ in site_alts(val.strip().a[0])] if okv else []
+            okc = bool(cnts) and all(c_.k == "call" and c_.x["path"].endswith(A("count_count")) and is_self_field(c_.a[0], "writer") for c_ in cnts)
             ck.ob(R, f"offset-is-sink-count/{key}", okv and okc, f"recorded offset = {val.show()} (expected to_be_bytes(self.writer.count()))", b, isite)
             if okc:
-                csite = cnt.x["site"]
-                between = mut_uses_between(b, csite, site, writer_sink_mut)
-                ck.ob(R, f"offset-read-before-write/{key}", b.dominates(csite, site) and not between,
-                      "count() dominates the block write and nothing writes to the sink between them" + (f" (sink writes in between at {[b.loc(s) for s in between]})" if between else ""), b, csite)
+                stale = stale_count_writes(b, [c_.x["site"] for c_ in cnts], site, writer_sink_mut)
+                ck.ob(R, f"offset-read-before-write/{key}", not stale,
+                      "on every path the latest count() read precedes the block write with no write to the sink between them" + (f" (sink writes after the latest read at {[b.loc(s) for s in stale]})" if stale else ""), b, cnts[0].x["site"])
     ck.floor(R, "paired block-write sites", npaired, 3, F.config)     # 4 on the pinned tree; sites may be shared through a helper
     # the root index block — the level with no level above it — is written on every finish, even when it
     # holds no entry: specialise the finish code to "this level has no last key" and "there is no level
